@@ -745,6 +745,7 @@ class Scenario:
                 if not any(u["op"] == "unsubscribe" and ident in u["ids"] and (u["t1"] is None or u["t1"] >= sc_["t0"] - TOL) for u in self.calls):
                     desired.add(ident)
         # a subscribe request cut off by a disconnection legitimately switches the library to polling
+        self._mark_answered()
         for wr in self.wire:
             if wr["method"] == "PUT" and b'"ev":true' in wr["body"]:
                 c = self.w.net.conns[wr["conn"]]
@@ -756,6 +757,17 @@ class Scenario:
             if sc_["op"] == "subscribe":
                 t_end = sc_["t1"] if sc_["t1"] is not None else now
                 if any(c.t_client_closed is not None and sc_["t0"] - TOL <= c.t_client_closed <= t_end + TOL for c in self.w.net.conns):
+                    self.fallback_allowed = True
+        # ... and the connector's own re-subscription (inside connection setup) that ran into the loss of the connection it
+        # had just verified: the request may never have been written, the library still falls back to polling
+        for a in self.attempts:
+            if a.get("t1") is None:
+                continue
+            for c in self.w.net.conns[a["conn0"]:]:
+                if c.t_open > a["t1"] + TOL:
+                    break
+                closed_at = c.t_client_closed
+                if getattr(c.server, "secure", False) and closed_at is not None and a["t0"] - TOL <= closed_at <= a["t1"] + TOL:
                     self.fallback_allowed = True
         if not desired:
             return
@@ -795,7 +807,20 @@ class Scenario:
         self._check_stale_loss()
 
     def _mark_answered(self) -> None:
-        pass
+        """a written request counts as answered when the accessory's complete response to it was delivered to the
+        controller's transport (i-th secure request written on a connection = i-th secure request its session parsed)"""
+        for conn in self.w.net.conns:
+            sess = conn.server
+            if sess is None or not hasattr(sess, "no") or getattr(sess, "acc", None) is not self.w.acc:
+                continue
+            wires = [wr for wr in self.wire if wr["conn"] == conn.no and wr["secure"]]
+            if not wires or all(wr.get("answered") for wr in wires):
+                continue
+            entries = [e for e in self.w.acc.request_log if e["session"] == sess.no and e["secure"]]
+            for wr, ent in zip(wires, entries):
+                rng = self.resp_range.get(ent["serial"])
+                if rng is not None and rng[0] == conn.no and rng[2] <= conn.bytes_a2c:
+                    wr["answered"] = True
 
     def _check_calls_finished(self) -> None:
         ctx = self.ctx
